@@ -80,7 +80,10 @@ FunctionSubstringAfter::execute(
 
         if (theSecondStringLength == 0)
         {
-            return arg1;
+            // The result is a string, whatever the type of the argument...
+            return arg1->getType() == XObject::eTypeString ?
+                        arg1 :
+                        executionContext.getXObjectFactory().createString(theFirstString);
         }
         else
         {
